@@ -377,6 +377,11 @@ func checkC01(c *Ctx) {
 		r.Floor("C01/STORE/errors", "tested errors on the AddMessage paths of the stores", nSE, 3)
 	}
 
+	// "in the mailbox its address names": the name a recipient's copy is filed under is computed
+	// by the same function every reader uses (decided by C04's one-authority rule)
+	nNm := c.borrow(checkC04, "C04/ONE-AUTHORITY/Recipient.Mailbox", "C01/NAME/recipient-mailbox", "Recipient.Mailbox is written only in NewRecipient, from ExtractMailbox of the recipient's own address: delivery and lookup name the mailbox alike")
+	r.Floor("C01/NAME/recipient-mailbox", "borrowed obligations", nNm, 1)
+
 	// ---- D6
 	t := c.smtpTypestate(m)
 	for _, u := range t.undec {
